@@ -567,6 +567,13 @@ def rule_I3(ctx, rule: str = "I3") -> None:
                 used.add(_norm_key_expr(key_vars[k.id], casing_param, fname))
             else:
                 used.add(_norm_key_expr(k, casing_param, fname))
+        # the values may be collected under the field names and re-keyed in the return value: {E(f): v for f, v in output.items()}
+        rets = [r.value for r in ast.walk(fn) if isinstance(r, ast.Return) and r.value is not None]
+        if used == {"$field"} and rets and all(isinstance(r, ast.DictComp) and len(r.generators) == 1 and not r.generators[0].ifs and isinstance(r.generators[0].target, ast.Tuple)
+                                              and len(r.generators[0].target.elts) == 2 and isinstance(r.generators[0].target.elts[0], ast.Name)
+                                              and ast.unparse(r.generators[0].iter) == "output.items()" and isinstance(r.value, ast.Name)
+                                              and isinstance(r.generators[0].target.elts[1], ast.Name) and r.value.id == r.generators[0].target.elts[1].id for r in rets):
+            used = {_norm_key_expr(r.key, casing_param, r.generators[0].target.elts[0].id) for r in rets}
         if len(used) != 1:
             ctx.inconclusive(rule, f"{q}:key-expression", f"{len(used)} different key expressions: {sorted(used)}", mod.loc(fn))
             return
